@@ -25,6 +25,9 @@ pub struct Ctx {
     /// per-point abstract traces of enumerating scenarios: (trace hash, non-trivial)
     pub subs: Vec<(u64, bool)>,
     saved_trace: u64,
+    /// every jawk run of the scenario gets a thread of its own (thread-locals at their
+    /// initial values, as in a fresh process), instead of sharing the worker's
+    pub isolate_runs: bool,
 }
 
 impl Ctx {
@@ -38,12 +41,26 @@ impl Ctx {
             file_counter: 0,
             subs: Vec::new(),
             saved_trace: 0,
+            isolate_runs: false,
         }
     }
 
     /// Run jawk once in the simulated world and account for what happened.
     pub fn exec(&mut self, spec: RunSpec) -> RunOut {
-        let out = run(spec);
+        let out = if self.isolate_runs {
+            match std::thread::Builder::new().stack_size(8 << 20).spawn(move || run(spec)).map(|h| h.join()) {
+                Ok(Ok(o)) => o,
+                _ => {
+                    self.harness_error = Some("a run in a thread of its own could not be completed".into());
+                    RunOut {
+                        outcome: Outcome::Abort("harness".into()),
+                        obs: Obs::default(),
+                    }
+                }
+            }
+        } else {
+            run(spec)
+        };
         self.account(&out);
         out
     }
